@@ -621,6 +621,7 @@ func relTime(s *Sim, t time.Time) int64 {
 }
 
 func (c *SimConn) SetDeadline(t time.Time) error {
+	c.yieldDl()
 	all, fault, _ := c.nextIdx('w')
 	err := c.setDl(t, true, true, fault)
 	c.logCall('D', relTime(c.sim, t), 0, err, fault, all)
@@ -628,6 +629,7 @@ func (c *SimConn) SetDeadline(t time.Time) error {
 }
 
 func (c *SimConn) SetReadDeadline(t time.Time) error {
+	c.yieldDl()
 	all, fault, _ := c.nextIdx('r')
 	err := c.setDl(t, true, false, fault)
 	c.logCall('r', relTime(c.sim, t), 0, err, fault, all)
@@ -635,10 +637,22 @@ func (c *SimConn) SetReadDeadline(t time.Time) error {
 }
 
 func (c *SimConn) SetWriteDeadline(t time.Time) error {
+	c.yieldDl()
 	all, fault, _ := c.nextIdx('w')
 	err := c.setDl(t, false, true, fault)
 	c.logCall('w', relTime(c.sim, t), 0, err, fault, all)
 	return err
+}
+
+// yieldDl makes a deadline call a scheduling point when the scenario asks for
+// it: the caller parks with an always-enabled event before the call takes
+// effect, so the clock may advance, or another goroutine's call on the same
+// connection may come first.
+func (c *SimConn) yieldDl() {
+	if !c.sim.cfg.YieldOnDeadline || c.sim.isTearing() {
+		return
+	}
+	c.sim.park(&parkRec{kind: opYield})
 }
 
 //go:norace
